@@ -84,6 +84,9 @@ fn hostile_payload(rng: &mut StdRng, class: usize) -> Vec<u8> {
         }
         18 => valid_request("/hostile/slow", &[("hostile", "1"), ("delay-ms", "4000")], b"slow"),   // handler still running later
         19 => valid_request("/hostile/hold", &[("hostile", "1"), ("hold", "1")], b"never answered"),
+        // well-formed, deadlines at the edges of what the timeout header can say
+        20 => valid_request("/hostile/deadline", &[("hostile", "1"), ("delay-ms", "30"),
+                ("timeout", ["0", "1", "999", "1000000", "18446744073709551615", "18446744073709551616", "00", "+5", " 7"][rng.gen_range(0..9)])], b"deadline"),
         _ => valid_request(&format!("/{}", "é".repeat(rng.gen_range(30..120))), &[("hostile", "1")], b""), // long multi-byte route
     }
 }
@@ -154,7 +157,7 @@ async fn run(mut sim: Sim, seed: u64, streams: usize) -> Result<Value, String> {
             }
             // one hostile stream
             hostile_streams += 1;
-            let class = rng.gen_range(0..20);
+            let class = rng.gen_range(0..21);
             let payload = hostile_payload(&mut rng, class);
             let ending = rng.gen_range(0..6);
             sim.run.obs(100, "adv.stream", json!({"class": class, "len": payload.len(), "ending": ending}));
